@@ -60,23 +60,28 @@ Fixpoint sum_ok (tol : Q) (t a b : list Q) : bool :=
 Definition opt_res (o : option (list Q)) : res :=
   match o with Some l => Vals l | None => Err E_VALUE end.
 
-(* [n; ninj; q; wl; eff; dpres] ++ dpprod(n) ++ dpbuoy(n) ++ dpinj(n) ++ rho_inj(n)
+(* [n; ninj; q; wl; eff] ++ dpres(n) ++ dpprod(n) ++ dpbuoy(n) ++ dpinj(n) ++ rho_inj(n)
    -> DPOverall(n) ++ PumpingPower(n) *)
+Fixpoint overall_series (a b c d : list Q) : option (list Q) :=
+  match a, b, c, d with
+  | [], [], [], [] => Some []
+  | x :: a', y :: b', z :: c', w :: d' =>
+      match overall_series a' b' c' d' with Some r => Some (dp_overall x y z w :: r) | None => None end
+  | _, _, _, _ => None
+  end.
+
 Definition run_impedance (a : list Q) : res :=
   match a with
-  | n :: ninj :: q :: wl :: eff :: dpres :: rest =>
+  | n :: ninj :: q :: wl :: eff :: rest =>
       let n := qnat n in
-      let '(dpprod, r1) := take_drop n rest in
+      let '(dpres, r0) := take_drop n rest in
+      let '(dpprod, r1) := take_drop n r0 in
       let '(dpbuoy, r2) := take_drop n r1 in
       let '(dpinj, rho) := take_drop n r2 in
-      match zipQ (fun a b => a + b) dpprod dpbuoy with
-      | Some s1 =>
-          match zipQ (fun s i => dpres + s + i) s1 dpinj with
-          | Some dpo =>
-              match imp_power_series ninj q wl eff dpo rho with
-              | Some p => Vals (dpo ++ p)
-              | None => Err E_VALUE
-              end
+      match overall_series dpres dpprod dpbuoy dpinj with
+      | Some dpo =>
+          match imp_power_series ninj q wl eff dpo rho with
+          | Some p => Vals (dpo ++ p)
           | None => Err E_VALUE
           end
       | None => Err E_VALUE
